@@ -159,6 +159,16 @@ Section Wrap.
   Proof. intros H. symmetry. apply (Z.mod_unique z B 1); [left; lia | ring]. Qed.
 End Wrap.
 
+(* |b| taken on the ruint (signed native constructors as repaired by fix-7): exact for every b a native type can hold *)
+Lemma abs_ru_abs k b : - Bk k < b < Bk k -> abs_ru k b = Z.abs b.
+Proof.
+  intros H. pose proof (Bk_pos k) as HB. unfold abs_ru. cbv zeta. destruct (Z.ltb_spec b 0).
+  - rewrite (modB_neg (Bk k) b) by lia. rewrite Z.abs_neq by lia. rewrite (modB_neg (Bk k)) by lia. ring.
+  - rewrite Z.abs_eq by lia. apply modB_small. lia.
+Qed.
+Lemma abs_ru_range k b : 0 <= abs_ru k b < Bk k.
+Proof. pose proof (Bk_pos k). unfold abs_ru. cbv zeta. destruct (b <? 0); apply Z.mod_pos_bound; lia. Qed.
+
 (* ------------------------------------------------------------------ inv_mod (ruinvmod.h) *)
 Section InvMod.
   Variables B c b0 : Z.
@@ -535,13 +545,14 @@ Section MGAProofs.
     (forall c, can (mga_of_ruint k M c) /\ V (mga_of_ruint k M c) = c mod p) /\
     (forall c, can (mga_of_unsigned k M c) /\ V (mga_of_unsigned k M c) = c mod p) /\
     (forall c, can (mga_of_mgi k M c) /\ V (mga_of_mgi k M c) = c mod p) /\
-    (forall b, can (mga_of_signed k M b) /\ V (mga_of_signed k M b) = b mod p) /\
+    (forall b, can (mga_of_signed k M b) /\ (- B < b < B -> V (mga_of_signed k M b) = b mod p)) /\
     (forall c, can (mga_of_rint k M c) /\ V (mga_of_rint k M c) = c mod p).
   Proof.
     split; [intros c; apply mga_to_mg_ok|]. split; [intros c; apply mga_to_mg_ok|]. split; [intros c; apply mga_to_mg_ok|].
     split.
     - intros b. unfold mga_of_signed. cbv zeta. cbn [g_p mga_init_module].
-      match goal with |- context [mga_to_mg k M ?v] => destruct (mga_to_mg_ok v) as [C1 V1]; split; [exact C1|]; rewrite V1 end.
+      match goal with |- context [mga_to_mg k M ?v] => destruct (mga_to_mg_ok v) as [C1 V1]; split; [exact C1|]; intros Hrng; rewrite V1 end.
+      rewrite (abs_ru_abs k b Hrng).
       pose proof (Z.mod_pos_bound (Z.abs b) p ltac:(lia)) as Hr.
       destruct (Z.ltb_spec b 0).
       + rewrite (modB_small B) by lia. rewrite Z.abs_neq by lia.
@@ -710,7 +721,7 @@ Section MGIProofs.
   Qed.
   Lemma mgi_ctor_ok :
     (forall c, can (mgi_of_ruint p c) /\ mgi_of_ruint p c = c mod p) /\
-    (forall b, can (mgi_of_signed k p b) /\ mgi_of_signed k p b = b mod p) /\
+    (forall b, can (mgi_of_signed k p b) /\ (- B < b < B -> mgi_of_signed k p b = b mod p)) /\
     (forall c, can (mgi_of_rint k p c) /\ mgi_of_rint k p c = c mod p).
   Proof.
     split; [intros c; split; [apply (mod_can k p Hp) | reflexivity]|].
@@ -720,7 +731,11 @@ Section MGIProofs.
       - rewrite (rm_neg_raw k p Hp _ Hr). split; [apply (mod_can k p Hp)|]. rewrite Z.abs_neq by lia.
         change (eqm p (- ((- b) mod p)) b). rewrite (mod_eqm p (- b)). rewrite Z.opp_involutive. reflexivity.
       - split; [exact Hr|]. rewrite Z.abs_eq by lia. reflexivity. }
-    split; intros b; apply Hs.
+    split; [|intros b; apply Hs].
+    intros b. split.
+    - unfold mgi_of_signed. cbv zeta. pose proof (mod_can k p Hp (abs_ru k b)) as Hr.
+      destruct (b <? 0); [rewrite (rm_neg_raw k p Hp _ Hr); apply (mod_can k p Hp) | exact Hr].
+    - intros Hrng. unfold mgi_of_signed. cbv zeta. rewrite (abs_ru_abs k b Hrng). apply Hs.
   Qed.
 End MGIProofs.
 
@@ -957,7 +972,7 @@ Definition MGA_ctor_stmt : Prop := forall k p, RecMod k p ->
   (forall c, canon p (mga_of_ruint k M c) /\ V (mga_of_ruint k M c) = c mod p) /\
   (forall c, canon p (mga_of_unsigned k M c) /\ V (mga_of_unsigned k M c) = c mod p) /\
   (forall c, canon p (mga_of_mgi k M c) /\ V (mga_of_mgi k M c) = c mod p) /\
-  (forall b, canon p (mga_of_signed k M b) /\ V (mga_of_signed k M b) = b mod p) /\
+  (forall b, canon p (mga_of_signed k M b) /\ (- Bk k < b < Bk k -> V (mga_of_signed k M b) = b mod p)) /\
   (forall c, canon p (mga_of_rint k M c) /\ V (mga_of_rint k M c) = c mod p).
 Lemma MGA_ctor : MGA_ctor_stmt.
 Proof. intros k p HM M V. subst M V. apply (mga_ctor_ok k p HM). Qed.
@@ -968,13 +983,13 @@ Definition MGI_ops_stmt : Prop := forall k p, 1 < p < Bk k -> forall a b e n, ca
   (Z.gcd b p = 1 -> canon p (mgi_inv k p b) /\ (mgi_inv k p b * b) mod p = 1) /\
   (Z.gcd b p = 1 -> canon p (mgi_div k p a b) /\ (mgi_div k p a b * b) mod p = a) /\
   (0 <= e < 2 ^ Z.of_nat n -> canon p (mgi_exp p n a e) /\ mgi_exp p n a e = (a ^ e) mod p) /\
-  (forall c, mgi_of_ruint p c = c mod p) /\ (forall c, mgi_of_signed k p c = c mod p) /\ (forall c, mgi_of_rint k p c = c mod p).
+  (forall c, mgi_of_ruint p c = c mod p) /\ (forall c, - Bk k < c < Bk k -> mgi_of_signed k p c = c mod p) /\ (forall c, mgi_of_rint k p c = c mod p).
 Lemma MGI_ops : MGI_ops_stmt.
 Proof.
   intros k p Hp a b e n Ha Hb.
   split; [apply (mgi_ops_ok k p Hp a b Ha Hb)|]. split; [intros Hg; apply (mgi_inv_ok k p Hp b Hb Hg)|].
   split; [intros Hg; apply (mgi_div_ok k p Hp a b Ha Hb Hg)|]. split; [intros He; apply (mgi_exp_ok k p Hp n a e Ha He)|].
-  destruct (mgi_ctor_ok k p Hp) as (H1 & H2 & H3). split; [intros c; apply H1|]. split; [intros c; apply H2 | intros c; apply H3].
+  destruct (mgi_ctor_ok k p Hp) as (H1 & H2 & H3). split; [intros c; apply H1|]. split; [intros c Hc; apply (proj2 (H2 c) Hc) | intros c; apply H3].
 Qed.
 
 (* the two variants agree: same inputs in, same residues out *)
